@@ -1,8 +1,12 @@
 import Casket.Proofs.Parser
 import Casket.Proofs.ParserTerm
 import Casket.Proofs.ParserTotal
+import Casket.Proofs.ParserMono
+import Casket.Proofs.ParserPos
 import Casket.Proofs.ParserRT
 import Casket.Proofs.ParserSplice
+import Casket.Proofs.ParserSpliceM
+import Casket.Proofs.ParserRTNB
 import Casket.Proofs.ParserCycle
 import Casket.Proofs.Env
 import Casket.Proofs.Lexer
@@ -104,6 +108,44 @@ example : Hyp { fs := selfFS, envFuel := 3 } (lex sImportF0) ∧
     (lex sImportF0).length * (Lmax { fs := selfFS, envFuel := 3 } + 2) ^ selfFS.files.length < 9 :=
   ⟨hyp_of_noRef _ _ rfl (by decide) (by decide), by decide⟩
 
+/-- Termination, snippets included.  For every input and every finite set of files — imports of files, globs and
+snippets nested to any depth, import cycles of every shape (file → file, snippet → snippet, mixed), any number of
+snippet definitions, in the input or in imported files — the repaired parser returns: there is a fuel `f0` from which
+on the answer is server blocks or an error, never `timeout`, never `panic`, and it no longer depends on the fuel.
+PARTIAL only in this: `HypS` asks that the environment replacement of every source token ends — the excluded point is
+the known finding F19 (a value that refers to its own variable loops in `replaceEnvReferences`); `cycleCheck = true`
+selects the parser after the `fix:` commit (`C10_cycle_diverges_unfixed` is the parser before it).
+Proof (Proofs/ParserTotal.lean, Proofs/ParserMono.lean): a snippet is defined only by `begin`, called from the loop of
+`parseAll`, so between two definitions the snippet table is constant and the weight argument of
+`C10_parse_total_files_partial` applies with the snippets counted among the sources (N = files + snippets, L = file
+tokens + snippet body tokens; `resolveImport_tm`, `push_measure`); a definition changes the weights, but a name is
+defined at most once (`snippet-redeclared`) and is the expansion of a source token (`candNames`), so `parseAll_total` is
+a lexicographic induction over (candidate names not yet defined, weight ahead); the fuel is existential and
+`parse_mono` (same answer at any larger fuel) glues the phases together. -/
+theorem C10_parse_total_partial (cfg : Cfg) (fn : String) (input : Bytes) (hyp : HypS cfg (lex input)) :
+    ∃ f0, ∀ fuel, f0 ≤ fuel →
+      ((∃ bs, parse cfg fuel fn input = .ok bs) ∨ (∃ c f l, parse cfg fuel fn input = .err c f l)) ∧
+      parse cfg fuel fn input = parse cfg f0 fn input := by
+  obtain ⟨f0, h0⟩ := parse_total cfg fn input hyp
+  refine ⟨f0, fun fuel hf => ⟨?_, Res.le_eq (parse_mono cfg f0 fuel hf fn input) (h0 f0 (Nat.le_refl _)).ne_timeout⟩⟩
+  have h := h0 fuel hf
+  cases hr : parse cfg fuel fn input with
+  | ok bs => exact Or.inl ⟨bs, rfl⟩
+  | err c f l => exact Or.inr ⟨c, f, l, rfl⟩
+  | panic m => exact absurd hr (C10_parse_no_panic cfg fuel fn input m)
+  | timeout => rw [hr] at h; exact h.elim
+
+/-- non-vacuity: `(a) {⏎ import f0⏎}⏎host {⏎ import a⏎}` with the file `f0` = `import a⏎` — a snippet whose body imports a
+file that imports the snippet again — satisfies the hypothesis; it DEFINES a snippet (`candNames`), so it is outside
+`C10_parse_total_files_partial`; the answer is the cycle error -/
+example :
+    let cfg : Cfg := { fs := ⟨[("f0", [0x69, 0x6D, 0x70, 0x6F, 0x72, 0x74, 0x20, 0x61, 0x0A])]⟩, envFuel := 3 }
+    let input : Bytes := [0x28, 0x61, 0x29, 0x20, 0x7B, 0x0A, 0x20, 0x69, 0x6D, 0x70, 0x6F, 0x72, 0x74, 0x20, 0x66, 0x30, 0x0A, 0x7D, 0x0A,
+      0x68, 0x6F, 0x73, 0x74, 0x20, 0x7B, 0x0A, 0x20, 0x69, 0x6D, 0x70, 0x6F, 0x72, 0x74, 0x20, 0x61, 0x0A, 0x7D]
+    HypS cfg (lex input) ∧ candNames cfg (lex input) = [[0x61]] ∧
+    answerOf (parse cfg 40 "Casketfile" input) = .error "import-cycle" "f0" 1 :=
+  ⟨hypS_of_noRef _ _ rfl (by decide) (by decide), by decide, by decide⟩
+
 /-- the hypothesis is decidable for texts without `{%` / `{$`, and it holds for ordinary configurations:
 `host {⏎ dir "a b" {⏎  x⏎ }⏎}` (a test of non-vacuity) -/
 example : Plain {} (lex [0x68, 0x6F, 0x73, 0x74, 0x20, 0x7B, 0x0A, 0x20, 0x64, 0x69, 0x72, 0x20, 0x22, 0x61, 0x20, 0x62, 0x22,
@@ -132,6 +174,56 @@ theorem C10_model_verdict_ok_partial (cfg : Cfg) (fuel : Nat) (fn : String) (inp
   | panic m => exact absurd hr (C10_parse_no_panic cfg fuel fn input m)
   | timeout => rw [hr] at h; exact h.elim
 
+/-- The error-position clause at full strength: EVERY error `Parse` returns names a non-empty file and a line ≥ 1 —
+for every input, every set of files, every snippet, every environment and every fuel; no hypothesis beyond a
+non-empty file name given to `Parse`.  (Proofs/ParserPos.lean: every token in the list and in a snippet body has a
+line ≥ 1; an error is raised at a cursor ≥ 0 of a non-empty token list.  The list CAN become empty — an import at
+cursor 0 that expands to nothing — but then the only error left, `addresses`' end of input, needs a comma-ended
+address read before, i.e. a cursor ≥ 1.) -/
+theorem C10_error_position (cfg : Cfg) (fuel : Nat) (fn : String) (input : Bytes) (hfn : fn ≠ "")
+    (c f : String) (l : Nat) (h : parse cfg fuel fn input = .err c f l) : f ≠ "" ∧ 1 ≤ l := by
+  have := parse_pos cfg fuel fn input hfn
+  rw [h] at this
+  exact this
+
+/-- non-vacuity (finding F22's input, evaluated): `a,⏎import nothing*` — the import at the end of the input expands to
+nothing, the end-of-input error is raised past the end of the shrunken token list and names the last line, not line 0;
+and `import nothing*` alone, which EMPTIES the token list at cursor 0, is not an error -/
+example :
+    parse { envFuel := 3 } 20 "Casketfile" [0x61, 0x2C, 0x0A, 0x69, 0x6D, 0x70, 0x6F, 0x72, 0x74, 0x20, 0x6E, 0x6F, 0x74, 0x68, 0x69, 0x6E, 0x67, 0x2A]
+      = .err "eof" "Casketfile" 1 ∧
+    parse { envFuel := 3 } 20 "Casketfile" [0x69, 0x6D, 0x70, 0x6F, 0x72, 0x74, 0x20, 0x6E, 0x6F, 0x74, 0x68, 0x69, 0x6E, 0x67, 0x2A] = .ok [] := by
+  decide
+
+/-- … so for ALL inputs, files, environments and fuel the judge's verdict on the model's answer is `ok` unless the
+answer is `timeout` -/
+theorem C10_model_verdict_unless_timeout (cfg : Cfg) (fuel : Nat) (fn : String) (input : Bytes) (hfn : fn ≠ "") :
+    totalVerdictA (answerOf (parse cfg fuel fn input)) = "ok" ∨ parse cfg fuel fn input = .timeout := by
+  cases hr : parse cfg fuel fn input with
+  | ok bs => exact Or.inl rfl
+  | err c f l =>
+    refine Or.inl ?_
+    rw [totalVerdictA_ok_iff]
+    obtain ⟨h1, h2⟩ := C10_error_position cfg fuel fn input hfn c f l hr
+    simp only [answerOf, total, Bool.and_eq_true, bne_iff_ne, ne_eq, decide_eq_true_eq]
+    exact ⟨h1, h2⟩
+  | panic m => exact absurd hr (C10_parse_no_panic cfg fuel fn input m)
+  | timeout => exact Or.inr rfl
+
+/-- The model's answer satisfies the judge `total` WITH imports and snippets: for every input and every finite set of
+files (imports of files, globs, snippets, cycles, snippet definitions) there is a fuel from which on the verdict of
+`ParserSpec.total` — the predicate the driver applies to the answers of the REAL parser — is `ok`: server blocks, or an
+error that names a non-empty file and a line ≥ 1; never a panic, never a timeout.
+PARTIAL only as `C10_parse_total_partial` is: looping environment values (finding F19) are excluded by `HypS`. -/
+theorem C10_model_verdict_ok_total_partial (cfg : Cfg) (fn : String) (input : Bytes) (hfn : fn ≠ "")
+    (hyp : HypS cfg (lex input)) :
+    ∃ f0, ∀ fuel, f0 ≤ fuel → totalVerdictA (answerOf (parse cfg fuel fn input)) = "ok" := by
+  obtain ⟨f0, h0⟩ := C10_parse_total_partial cfg fn input hyp
+  refine ⟨f0, fun fuel hf => ?_⟩
+  rcases C10_model_verdict_unless_timeout cfg fuel fn input hfn with h | h
+  · exact h
+  · rcases (h0 fuel hf).1 with ⟨bs, hb⟩ | ⟨c, f, l, hb⟩ <;> rw [hb] at h <;> cases h
+
 /-! ### structure preservation: the blocks returned are the blocks written -/
 
 /-- For EVERY written configuration — any number of server blocks; keys on one line or continued after a comma;
@@ -139,7 +231,8 @@ directives with any arguments and arbitrarily nested sub-blocks, laid out in lin
 (`ParserRT.blockOK`: conditions on the tokens' files and line numbers only, so every layout and every mix of
 inline / snippet / imported origins that yields such tokens is covered) — `Parse` returns exactly those blocks:
 the keys in order (commas stripped) and, per directive name, the directive's tokens in order.
-(Braced form of server blocks; `validDirectives = nil`; tokens free of `{$`/`{%` references.) -/
+(Braced form of server blocks — the brace-less single-block form is `C10_parse_roundtrip_braceless`;
+`validDirectives = nil`; tokens free of `{$`/`{%` references.) -/
 theorem C10_parse_roundtrip (cfg : Cfg) (hf : 0 < cfg.envFuel) (hv : cfg.valid = none) (fn : String) (bs : List WBlock)
     (hall : ∀ b ∈ bs, blockOK b = true) (fuel : Nat) (hfuel : (flatten bs).length + 1 ≤ fuel) :
     parseTokens cfg fuel fn (flatten bs) = .ok (bs.map expectedBlock) :=
@@ -176,6 +269,33 @@ example :
     blockOK b = true ∧
     (expectedBlock b).keys = [[0x68, 0x6F, 0x73, 0x74], [0x62]] ∧
     (expectedBlock b).tokens.map (fun p => (p.1, p.2.length)) = [([0x64, 0x69, 0x72], 6), ([0x6C, 0x6F, 0x67], 1)] := by
+  decide
+
+/-- The brace-less single-block form: a configuration written as ONE server block without braces — keys on the first
+line(s), then at least one directive, each as in `C10_parse_roundtrip`, to the end of the input — parses to exactly that
+block (`expectedE b` = `expectedBlock` of the braced form, whatever the braces: `expectedE_eq`).  `addresses()` stops on
+the first token of the line after the keys, `blockContents()` steps back one token, `directives()` runs to the end of the
+input.  (`validDirectives = nil`; tokens free of `{$`/`{%` references; a block of keys only is not covered.) -/
+theorem C10_parse_roundtrip_braceless (cfg : Cfg) (hf : 0 < cfg.envFuel) (hv : cfg.valid = none) (fn : String) (b : WBlockE)
+    (hok : blockEOK b = true) (fuel : Nat) (hfuel : 2 * b.toks.length + 4 ≤ fuel) :
+    parseTokens cfg fuel fn b.toks = .ok [expectedE b] :=
+  parseTokens_nb cfg hf hv fn b hok fuel hfuel
+
+/-- … and from the text, composing with `C10_lex_render` as `C10_parse_roundtrip_text` does -/
+theorem C10_parse_roundtrip_braceless_text (cfg : Cfg) (hf : 0 < cfg.envFuel) (hv : cfg.valid = none) (fn : String)
+    (input : Bytes) (b : WBlockE) (hlex : lex input = b.toks) (hok : blockEOK b = true) (fuel : Nat)
+    (hfuel : 2 * b.toks.length + 4 ≤ fuel) :
+    parse cfg fuel fn input = .ok [expectedE b] := by
+  unfold parse; rw [hlex]; exact parseTokens_nb cfg hf hv fn b hok fuel hfuel
+
+/-- non-vacuity (a test, by evaluation): `host, b⏎gzip⏎log a {⏎ x⏎}⏎` is such a configuration -/
+example :
+    let t (l : Nat) (s : List UInt8) : Token := ⟨"", l, s⟩
+    let b : WBlockE := ⟨[t 1 [104, 111, 115, 116, 44], t 1 [98]],
+      [⟨t 2 [103, 122, 105, 112], []⟩, ⟨t 3 [108, 111, 103], [t 3 [97], t 3 lbrace, t 4 [120], t 5 rbrace]⟩]⟩
+    lex [104, 111, 115, 116, 44, 32, 98, 10, 103, 122, 105, 112, 10, 108, 111, 103, 32, 97, 32, 123, 10, 32, 120, 10, 125, 10] = b.toks ∧
+    blockEOK b = true ∧ (expectedE b).keys = [[104, 111, 115, 116], [98]] ∧
+    (expectedE b).tokens.map (fun p => (p.1, p.2.length)) = [([103, 122, 105, 112], 1), ([108, 111, 103], 5)] := by
   decide
 
 /-- Structure preservation ACROSS an import.  A server block one run of whose directives has been moved, as whole
@@ -233,6 +353,64 @@ theorem C10_inline_import_equiv_partial (cfg : Cfg) (hf : 0 < cfg.envFuel) (hv :
       · exact hbs x hx) fuel hfuelI, ?_⟩
   simp only [List.map_cons, List.cons.injEq, and_true]
   exact textsOf_expected b run runI hsame
+
+/-- Structure preservation across ANY NUMBER of imports, in ANY block.  A configuration in which, in every server block,
+any number of runs of whole directives have been moved into files and replaced by `import <file>` lines (`WItem`: a
+block's body is a list of directives and import lines; the same file may be imported several times) parses to the
+blocks of the inline text in which every run stands in place of its import line: same keys, and per directive name the
+same tokens in order, the imported ones carrying their file's name and lines.
+PARTIAL — what is missing: import lines nested inside a directive's `{ … }` sub-block or at address position, glob
+patterns matching several files, imports inside imported files, snippets (covered by the stream c10.rt). -/
+theorem C10_import_splice_multi_partial (cfg : Cfg) (hf : 0 < cfg.envFuel) (hv : cfg.valid = none) (hcc : cfg.cycleCheck = true)
+    (fn : String) (bs : List WBlockM) (hall : ∀ b ∈ bs, blockMOK cfg b = true) (fuel : Nat)
+    (hfuel : 2 * ((flattenM bs).length + impLenB bs) + 2 ≤ fuel) :
+    parseTokens cfg fuel fn (flattenM bs) = .ok (bs.map fun b => expectedBlock b.inline) :=
+  parseTokens_m cfg hf hv hcc fn bs hall fuel hfuel
+
+/-- non-vacuity (a test, by evaluation): `a {⏎ import f0⏎}⏎b {⏎ d1 x⏎ import f0⏎ import f1⏎ log⏎}` with the files `f0` = `dir2 x⏎`
+and `f1` = `gz⏎tls off⏎` — two blocks, three import lines, one file imported twice — is such a configuration: the lexer's
+tokens are `flattenM`, every block passes `blockMOK`; the second block's directives are spelled out -/
+example :
+    let t (f : String) (l : Nat) (s : List UInt8) : Token := ⟨f, l, s⟩
+    let c0 : Bytes := [100, 105, 114, 50, 32, 120, 10]
+    let c1 : Bytes := [103, 122, 10, 116, 108, 115, 32, 111, 102, 102, 10]
+    let run0 : List WDir := [⟨t "f0" 1 [100, 105, 114, 50], [t "f0" 1 [120]]⟩]
+    let run1 : List WDir := [⟨t "f1" 1 [103, 122], []⟩, ⟨t "f1" 2 [116, 108, 115], [t "f1" 2 [111, 102, 102]]⟩]
+    let b1 : WBlockM := ⟨[t "" 1 [97]], t "" 1 lbrace, [.imp (t "" 2 sImport) (t "" 2 [102, 48]) "f0" c0 run0], t "" 3 rbrace⟩
+    let b2 : WBlockM := ⟨[t "" 4 [98]], t "" 4 lbrace,
+      [.dir ⟨t "" 5 [100, 49], [t "" 5 [120]]⟩, .imp (t "" 6 sImport) (t "" 6 [102, 48]) "f0" c0 run0,
+       .imp (t "" 7 sImport) (t "" 7 [102, 49]) "f1" c1 run1, .dir ⟨t "" 8 [108, 111, 103], []⟩],
+      t "" 9 rbrace⟩
+    let cfg : Cfg := { fs := ⟨[("f0", c0), ("f1", c1)]⟩ }
+    lex [97, 32, 123, 10, 32, 105, 109, 112, 111, 114, 116, 32, 102, 48, 10, 125, 10, 98, 32, 123, 10, 32, 100, 49, 32, 120, 10,
+         32, 105, 109, 112, 111, 114, 116, 32, 102, 48, 10, 32, 105, 109, 112, 111, 114, 116, 32, 102, 49, 10, 32, 108, 111,
+         103, 10, 125] = flattenM [b1, b2] ∧
+    blockMOK cfg b1 = true ∧ blockMOK cfg b2 = true ∧
+    (expectedBlock b2.inline).tokens.map (fun p => (p.1, p.2.length)) =
+      [([100, 49], 2), ([100, 105, 114, 50], 2), ([103, 122], 1), ([116, 108, 115], 2), ([108, 111, 103], 1)] := by
+  decide
+
+/-- "Regardless of whether the text was written inline or in imported files", any number of imports: if for every block
+the directives are ALSO written inline as `q.2` (any layout that is a written configuration) with the same texts as the
+items stand for, both parses succeed and return the same blocks up to the tokens' file/line attributes.
+PARTIAL: same scope as `C10_import_splice_multi_partial`. -/
+theorem C10_inline_import_equiv_multi_partial (cfg : Cfg) (hf : 0 < cfg.envFuel) (hv : cfg.valid = none)
+    (hcc : cfg.cycleCheck = true) (fn : String) (pairs : List (WBlockM × List WDir))
+    (hall : ∀ q ∈ pairs, blockMOK cfg q.1 = true ∧ blockOK (q.1.inlineWith q.2) = true ∧
+      (inlineDirs q.1.items).map dirTexts = q.2.map dirTexts) (fuel : Nat)
+    (hfuel : 2 * ((flattenM (pairs.map (·.1))).length + impLenB (pairs.map (·.1))) + 2 ≤ fuel)
+    (hfuelI : (flatten (pairs.map fun q => q.1.inlineWith q.2)).length + 1 ≤ fuel) :
+    ∃ r1 r2, parseTokens cfg fuel fn (flattenM (pairs.map (·.1))) = .ok r1 ∧
+      parseTokens cfg fuel fn (flatten (pairs.map fun q => q.1.inlineWith q.2)) = .ok r2 ∧
+      r1.map textsOf = r2.map textsOf := by
+  refine ⟨_, _, parseTokens_m cfg hf hv hcc fn _ (fun b hb => by
+      obtain ⟨q, hq, rfl⟩ := List.mem_map.mp hb; exact (hall q hq).1) fuel hfuel,
+    parseTokens_rt cfg hf hv fn _ (fun x hx => by
+      obtain ⟨q, hq, rfl⟩ := List.mem_map.mp hx; exact (hall q hq).2.1) fuel hfuelI, ?_⟩
+  simp only [List.map_map]
+  apply List.map_congr_left
+  intro q hq
+  exact textsOf_inlineWith q.1 q.2 (hall q hq).2.2
 
 /-! ### environment placeholders -/
 
